@@ -1,6 +1,31 @@
 """Per-property metadata for the driver: shard counts, wall limits, evidence rule text."""
 
-def register_all(prop):
+ADDENDA = {
+    "C01": " long_lived: connections that still carry data 30 s after accept. abort_then_transfer: an aborted connection followed by a full transfer on the same proxy.",
+    "C03": " Faults: the control connection is cut (udp and sudp) or the backend goes away for a while; after the fault the sender pauses longer than the re-establishment window, so later datagrams are outside the exclusion.",
+    "C04": " ssh_gateway ops (thorough and quick): logins through the ssh tunnel gateway with authorized / unauthorized keys. invalid_heartbeats: a session fed only wrong-key heartbeats must end by the heartbeat timeout.",
+    "C05": " A fault variant removes the client's TLS material after the first login (re-login must not fall back to clear text).",
+    "C06": " https_wire: real ClientHellos against the https muxer with multi-route proxies; a name matching no live route must be closed, never bridged and never left hanging.",
+    "C07": " tcpmux_group_credentials: credential-protected tcpmux groups; http_routes also draws the '/' location and empty request paths.",
+    "C08": " A wrong-signature NAT-hole / visitor request must be answered with an error within the bound (the harness's own table snapshot is bounded, so a wedged server is reported, not waited for).",
+    "C09": " server_histories also drops a session while one of its registrations is in flight.",
+    "C10": " Also server-chosen (-any) port kinds and joins by a wrong-key intruder.",
+    "C12": " Also a session drop with a registration in flight (regdrop).",
+    "C14": " client_watchdog_backoff also checks run-id continuity (every re-login presents the run id the server last gave). healing faults: refuse, cut, black hole, dark (half-open) relay, reload during the outage, default loginFailExit, 120+ proxies.",
+    "C15": " Outcomes also include content with trailing JSON after the response object.",
+    "C16": " frps_churn also draws visitor floods, twin re-logins, registrations beyond the limits, quota, and checks that bystander heartbeats keep being answered. frpc_stop_at_login: stop while the login is outstanding.",
+    "C17": " live_first_message also keeps 0..3 peers stalled in the middle of their first frame while an honest login must complete within 3 s, and a peer that pipelines Login + encrypted Ping in one write (3 split variants). udp_content: payloads handed out by the udp packet decoder keep their content while further packets are decoded.",
+    "C18": " env_template: {{ .Envs.X }} with values containing '=', base64, leading / trailing space, empty. concurrent_strict: strict and non-strict loads of 1..120-proxy files running concurrently; the strict ones must still reject an unknown key.",
+    "C19": " health_flap_backoff: a backend flapping up/down; stop_during_send and stale_visitor_config are deterministic probes.",
+    "C20": " controller_exchange also checks that each party's answer carries its own transaction id and that the receiver is still reading when the sender starts. controller_history: the same pair asks 7 or 9 times without a success report, so every behaviour of the controller's list is produced; each answer pair must satisfy the same oracle. discover_late_response: deterministic probe.",
+}
+
+
+def register_all(prop0):
+    def prop(pid, **kw):
+        if pid in ADDENDA and "rule" in kw:
+            kw["rule"] = kw["rule"] + ADDENDA[pid]
+        return prop0(pid, **kw)
     prop("C17", qshards=8, tshards=16, qlimit=300, tlimit=2400, fuzz=[("FuzzDecodeTotal", 90), ("FuzzRoundTrip", 90)],
          rule=("roundtrip: rapid draws a message type and a value for every field of the PINNED released schema "
                "(strings incl. empty/unicode/control/10KiB, extreme ints, maps, lists, nil/zero/IPv4/IPv6 UDP addrs), "
@@ -29,7 +54,7 @@ def register_all(prop):
                "digest / valid JWT; nothing sent by the peer exempts it), refused => error response + connection closed, no StartWorkConn on a "
                "refused work connection, table snapshot after == before, bystander tunnel answers from legitimate sessions only. non-trivial = "
                ">=1 refused and >=1 accepted operation, or always_auth_pass claimed, or a scope-protected message; distinct = distinct case."),
-         assumptions=["ssh gateway path: not exercised in this check (see DESIGN.md)", "heartbeat-timeout consequence of invalid pings is decided in C14"])
+         assumptions=["ssh tunnel gateway: driven with authorized and unauthorized ssh keys (ssh_test.go); its virtual-client path is the only place where always_auth_pass is honoured", "the end of a session fed only invalid heartbeats is checked here (invalid_heartbeats) and in C14"])
     prop("C09", qshards=8, tshards=16, qlimit=480, tlimit=3000,
          rule=("manager_model: action sequences (acquire name/port in {0, in range, outside, negative, >65535}, release, squat/unsquat by the harness) "
                "on ports.Manager over a leased real range of 1..6 ports, tcp and udp, against a reference allocator; the harness binds every granted "
